@@ -59,6 +59,7 @@ func (db *DB) compact(sourceSeg *segment) (CompactionResult, error) {
 	db.mu.Lock()
 	sourceSeg.meta.Full = true // Prevent writes to the compacted file.
 	db.mu.Unlock()
+	verifYield("compact.sealed")
 
 	it, err := newSegmentIterator(sourceSeg)
 	if err != nil {
@@ -91,7 +92,9 @@ func (db *DB) compact(sourceSeg *segment) (CompactionResult, error) {
 		if err != nil {
 			return cr, err
 		}
+		verifYield("compact.record")
 	}
+	verifYield("compact.remove")
 
 	db.mu.Lock()
 	defer db.mu.Unlock()
@@ -143,6 +146,7 @@ func (db *DB) Compact() (CompactionResult, error) {
 	db.mu.RLock()
 	segments := db.pickForCompaction()
 	db.mu.RUnlock()
+	verifYield("compact.picked")
 
 	for _, seg := range segments {
 		segcr, err := db.compact(seg)
